@@ -23,6 +23,53 @@ type E1Job struct {
 	Run    explore.RunFunc
 	Weight int // relative share of the time budget (default 1)
 	Shards int // 0: automatic
+	// Labeled re-runs one schedule with the event log on (replay); optional.
+	Labeled func(devs []vrt.Dev) *explore.Exec
+}
+
+// ReplayE1 re-runs the schedule recorded in the replay file on the job it names and prints the event log.
+// Returns the exit status (1 if the violation reproduces).
+func (c *Check) ReplayE1(jobs []E1Job) int {
+	r, err := LoadReplay(c.Replay)
+	if err != nil {
+		fmt.Println("replay:", err)
+		return 2
+	}
+	for _, j := range jobs {
+		if j.Name != r.Harness {
+			continue
+		}
+		run := j.Labeled
+		if run == nil {
+			run = j.Run
+		}
+		x := run(r.Devs)
+		if x.S != nil {
+			for _, l := range x.S.Log {
+				fmt.Println(l)
+			}
+		}
+		if x.S != nil {
+			for _, d := range r.Devs {
+				if d.Pos < len(x.S.Trace) {
+					p := x.S.Trace[d.Pos]
+					fmt.Printf("deviation at choice point %d: kind %c, took alternative %d of %d [%s]\n", d.Pos, p.Kind, d.Alt, p.N, p.Label)
+				}
+			}
+		}
+		fmt.Println("harness:", j.Name)
+		fmt.Println("deviations:", r.Devs)
+		fmt.Println("outcome:", x.Outcome)
+		for _, v := range x.Violations {
+			fmt.Println("violation:", v.Fingerprint, "—", v.Detail)
+		}
+		if len(x.Violations) > 0 {
+			return 1
+		}
+		return 0
+	}
+	fmt.Println("replay: no job named", r.Harness, "in this tier (try the other tier)")
+	return 2
 }
 
 var e1child = flag.String("e1child", "", "internal: job:shard/nshards:deadlineUnixMilli:outfile")
@@ -34,6 +81,12 @@ var e1child = flag.String("e1child", "", "internal: job:shard/nshards:deadlineUn
 // budget is the wall-clock budget of the whole batch.
 func (c *Check) E1Batch(jobs []E1Job, budget time.Duration) {
 	c.batchNo++
+	if c.Replay != "" {
+		if rc := c.ReplayE1(jobs); rc != 2 {
+			os.Exit(rc)
+		}
+		return
+	}
 	if *e1child != "" {
 		var b int
 		fmt.Sscanf(*e1child, "b%d:", &b)
